@@ -6,7 +6,7 @@
 (* (C13: ill-formed input is rejected; C05: sequences; C02/C14: trees and  *)
 (* identifier occurrences of well-formed input; C01: totality).            *)
 (***************************************************************************)
-EXTENDS Grammar, Json
+EXTENDS Api
 CONSTANTS MaxLen, AlphaName
 VARIABLE toks
 
@@ -26,6 +26,7 @@ Alphabet ==
     [] AlphaName = "ops"   -> {One, X} \cup Ops(PlainBinOps \cup PrefixOps)
     [] AlphaName = "assign"-> {One, X, Y} \cup Ops(AssignOps \cup {"+", ";"})
     [] AlphaName = "call"  -> {One, StrT, X, F} \cup Ops({"(", ")", ",", "-", "^", "*"})
+    [] AlphaName = "idents"-> {X, Y, F} \cup Ops({"=", "+=", ";", ",", "(", ")", "+"})       \* two variable names: order of occurrences
     [] AlphaName = "wide"  -> {One, TrueT, X, Y, F} \cup Ops({"-", "!", "^", "%", "-", "==", "&&", "||", "=", "*=", "(", ")", ",", ";"})
 
 Init == toks = <<>>
@@ -62,5 +63,14 @@ SpecTheorems ==
 
 Case == [kind |-> "parse", toks |-> TokTexts(toks), class |-> Cls.class, bal |-> Balanced(toks),
          tree |-> JTree(Cls.tree), occ |-> IF Cls.class = "WF" THEN Occurrences(Cls.tree) ELSE <<>>]
-Emit == PrintT(ToJson(Case))
+\* C05, value half: a well-formed sequence is also evaluated (x = 5 initially): the value of a chain is that of its last
+\* element with the effects of the earlier ones applied, a tuple is flat, an absent element is the empty value
+EvalAlphas == {"seq", "seqas", "assign"}
+Ctx0 == HashMapCtx((<<120>> :> VNat(5)), EmptyMap, FALSE)
+EvalCase == LET r == Core("mut", Cls.tree, St(Ctx0, <<>>)) IN
+  [kind |-> "eval", check |-> "seq_value", toks |-> TokTexts(toks), ctx |-> CtxJson(Ctx0), level |-> "string", ek |-> "value",
+   mode |-> "mut", allowed |-> {JPat(PatOf(r.r))}, exact |-> FALSE, det |-> TRUE, post |-> CtxJson(r.st.ctx), log |-> <<>>,
+   nontrivial |-> Len(toks) >= 3]
+Emit == /\ PrintT(ToJson(Case))
+        /\ (AlphaName \in EvalAlphas /\ Cls.class = "WF" => PrintT(ToJson(EvalCase)))
 =============================================================================
